@@ -154,7 +154,20 @@ func c02Roundtrip(c *core.Ctx, k *core.Case) {
 		in := cloneB(wire)
 		if path == pathPlain {
 			m2 = nas.NewMessage()
-			err = m2.PlainNasDecode(&in)
+			if h := core.HashBytes(0x14, wire); h&1 == 1 {
+				// the receiving Message carries the security header its caller took off the PDU; the
+				// fields are the caller's and say nothing about the plain message
+				rec := nas.SecurityHeader{ProtocolDiscriminator: 0x7e, SecurityHeaderType: uint8(1 + h>>8%4), MessageAuthenticationCode: uint32(h >> 16), SequenceNumber: uint8(h >> 48)}
+				m2.SecurityHeader = rec
+				err = m2.PlainNasDecode(&in)
+				if err == nil && m2.SecurityHeader != rec {
+					c.Fail(k, "receiver-security-header-changed:"+def.Name, fmt.Sprintf("PlainNasDecode changed the SecurityHeader its caller had recorded in the receiving Message: %+v -> %+v", rec, m2.SecurityHeader))
+				}
+				m2.SecurityHeader = m.SecurityHeader
+				c.Count("decodes_into_message_with_recorded_security_header", 1)
+			} else {
+				err = m2.PlainNasDecode(&in)
+			}
 		} else {
 			m2, err = familyDecode(in, def)
 		}
